@@ -135,7 +135,11 @@ class P(Prop):
                 return None
             for xb, rb in zip(case["xs"], h["r"]):
                 x = fr(xb)
-                seg = next(((p_, q_) for p_, q_ in zip(ks, ks[1:]) if p_[0] <= x <= q_[0]), None)
+                # a shared knot is evaluated with the piece to its RIGHT (the last knot with the last piece)
+                pairs = list(zip(ks, ks[1:]))
+                seg = next(((p_, q_) for p_, q_ in pairs if p_[0] <= x < q_[0]), None)
+                if seg is None and x == ks[-1][0]:
+                    seg = pairs[-1]
                 if seg is None:
                     continue
                 (x0, y0), (x1, y1) = seg
